@@ -38,6 +38,10 @@ func c16(c *Check) {
 		}
 	}
 
+	c.Rule("C16/conversion-all-or-nothing", "frozen table (shared with C11): the conversion the hook runs on its cache context — ConvertCoin's gate (incl. the destroyed-contract test through IsContract) and the two coin→token conversion functions — propagates every error of its escrow / mint / transfer steps and reaches success only after the balance check: a conversion that fails half way reports the failure, so the hook drops the cache and the vouchers stay with the receiver", 20)
+	c.FrozenFiltered("C11", "C16/conversion-all-or-nothing", func(fn string) bool {
+		return strings.HasSuffix(fn, "Keeper.ConvertCoin") || strings.HasSuffix(fn, "Keeper.convertCoinNativeCoin") || strings.HasSuffix(fn, "Keeper.convertCoinNativeERC20")
+	})
 	c.Rule("C16/middleware-forwarding", "IBCMiddleware.OnRecvPacket calls the wrapped module with unmodified (ctx,packet,relayer), returns its ack when !Success(), otherwise returns the hook's value for that same ack; ibc.Module forwards every callback unchanged", 12)
 	mw := c.F("x/aggregate.IBCMiddleware.OnRecvPacket")
 	mm := Macros{"INNER": "teleport/ibc.(Module).OnRecvPacket($0.Module, $1, $2, $3)"}
